@@ -678,7 +678,20 @@ func (c *SpecCtx) quant(e *Expr) SV {
 	if c.assume {
 		return mathBool(Exists(vars, And(rng, And(sides...), body)))
 	}
-	return mathBool(Exists(vars, And(rng, body)))
+	ex := Exists(vars, And(rng, body))
+	if e.Args[0] != nil && len(vars) == 1 {
+		// witness hint: the last index of the range is the usual witness in loop steps
+		lo, hi := c.evalInt(e.Args[0]), c.evalInt(e.Args[1])
+		m := *c
+		m.bound = map[string]SV{}
+		for k, v := range c.bound {
+			m.bound[k] = v
+		}
+		m.bound[e.Vars[0]] = mathInt(Sub(hi, Int(1)))
+		inst := m.evalBool(e.Args[2])
+		return mathBool(Or(And(Lt(lo, hi), inst), ex))
+	}
+	return mathBool(ex)
 }
 
 // evalLval evaluates a modifies-clause item into cell ranges.
